@@ -15,7 +15,7 @@ new_unchecked is the only other construction site; (EXPR) the set predicates hav
 x<=max, contains_interval = contains(o.min) and contains(o.max), overlaps = contains(o.min) or o.contains(min), length =
 max - min, intersection = new(max(min,min'), min(max,max')) under overlaps, clamp = max(min(x,max),min); AngleInterval::intersects =
 contains(o.start) or o.contains(start); signed_compliment_2pi = a - 2pi for a >= 0, a + 2pi otherwise."""
-NOT_DECIDED = "relations between two results (rotating the first by the directed angle gives the second; Cw + Ccw = full turn), AngleInterval::contains near the 0/2pi seam and the ANGLE_TOL slack, |a| ~ 1e6 where % loses bits, one-ulp neighbourhoods"
+NOT_DECIDED = "relations between two results beyond the zero case (rotating the first by the directed angle gives the second; Cw + Ccw = full turn), AngleInterval::contains near the 0/2pi seam and the ANGLE_TOL slack, magnitudes ~ 1e6 where % loses bits, one-ulp neighbourhoods"
 ASSUMPTIONS = ["real arithmetic with closed bounds (the property states closed ranges because rounding lands on the end points)",
                "fmod: |x % m| < m with the sign of x; atan2 in [-pi, pi]"]
 
